@@ -289,7 +289,7 @@ theorem q_finishLoop (cfg : Cfg) (isRead : Bool) (l : Loop) (h : LQ cfg cfg.memb
     (hok : (finishLoop cfg isRead l).ok = true) : Q cfg (finishLoop cfg isRead l) := by
   unfold finishLoop at hok ⊢
   by_cases hlt : l.result.length < cfg.members.length
-  · simp [hlt, failedExc] at hok
+  · exfalso; simp only [hlt, if_true] at hok; split at hok <;> simp [failedExc] at hok
   · simp only [hlt, if_false] at hok ⊢
     rcases h with ⟨_, hq, _⟩ | ⟨_, hn⟩
     · by_cases hw : wf cfg l.result = true
@@ -455,7 +455,7 @@ theorem q_finishLoopO (cfg : Cfg) (isRead : Bool) (ov : Overlap) (l : Loop) (h :
   unfold finishLoopO at hok ⊢
   simp only at hok ⊢
   by_cases hlt : l.result.length < cfg.members.length
-  · simp [hlt, failedExc] at hok
+  · exfalso; simp only [hlt, if_true] at hok; split at hok <;> simp [failedExc] at hok
   · simp only [hlt, if_false] at hok ⊢
     rcases h with ⟨_, hq, _⟩ | ⟨_, hn⟩
     · have hq2 := q_interrupt cfg ov.afterRead _ (q_interrupt cfg ov.atEnd _ hq)
